@@ -32,7 +32,7 @@ from ..schema.introspection import is_introspection_type
 from ..utilities.ast_node_from_value import ast_node_from_value
 
 
-_SPECIFIED_DIRECTIVE_NAMES = (d.name for d in SPECIFIED_DIRECTIVES)
+_SPECIFIED_DIRECTIVE_NAMES = tuple(d.name for d in SPECIFIED_DIRECTIVES)
 
 
 class ASTSchemaPrinter:
